@@ -116,13 +116,4 @@ mod verif_kani_blte_chunk {
         check_round_trip(EncryptionSpec::salsa20(0x1234_5678_9abc_def0, [9, 8, 7, 6]), 70_000);
     }
 
-    /// C01 (thorough; bounded: ARC4 instead of Salsa20, block index 1)
-    #[kani::proof]
-    #[kani::unwind(258)]
-    #[kani::stub(alloc::fmt::format, empty_format)]
-    #[kani::stub(std::collections::hash_map::RandomState::new, fixed_random_state)]
-    #[kani::stub(cascette_crypto::TactKeyStore::get, stub_store_get)]
-    fn chunk_round_trip_arc4_index_1() {
-        check_round_trip(EncryptionSpec::arc4(0x1234_5678_9abc_def0, [9, 8, 7, 6]), 1);
-    }
 }
